@@ -277,3 +277,79 @@ def render_batch(cases):
         for ln in range(start, len(lines) + 1):
             index[ln] = c['id']
     return '\n'.join(lines) + '\n', index
+
+# ------------------------------------------------------------------------------------------------ C19 / C15 compile-time ascriptions
+ALLF = 'as_str, from_str, into, MAX, MIN, next, next_back, try_from, Debug, Display, FromStr, Into, IntoStr, TryFrom, names, range'
+
+def c19_cases(tier):
+    """accept witnesses: const contexts, fn-pointer ascriptions, trait-bound assertions - for every iter mode and shape.
+    reject twin: a const context that must NOT compile if `into` were not const is not expressible; instead each accept
+    case has a sibling that differs by one wrong ascription and must be rejected by rustc (so the ascriptions bite)."""
+    out = []
+    n = [0]
+    shapes = [('gapless', 'i8', ['A = -1', 'B = 0', 'C = 1']), ('holes', 'u32', ['A = 1', 'B = 2', 'C = 9']), ('single', 'i64', ['A = 7']), ('wide', 'u128', ['A = 0', 'B = 1'])]
+    for shape, r, vs in shapes:
+        modes = ['auto', 'range', 'next_and_back', 'table', 'table_inline'] if shape != 'holes' else ['auto', 'next_and_back', 'table', 'table_inline']
+        for im in modes:
+            for sm in ('match', 'table'):
+                feats = ALLF if im != 'table_inline' else ALLF.replace(', range', '')
+                it = 'iter' if im == 'auto' else 'iter(mode = "%s")' % im
+                attrs = ['#[enum_tools(%s, %s)]' % (feats.replace('as_str', 'as_str(mode = "%s")' % sm).replace('from_str,', 'from_str(mode = "%s"),' % sm).replace('FromStr,', 'FromStr(mode = "%s"),' % sm), it)]
+                first = vs[0].split(' = ')[0]
+                probes = [
+                    'const X: %s = E::%s.into();' % (r, first), 'static Y: %s = E::%s.into();' % (r, first), 'const ARR: [u8; (E::%s.into() as i128 - E::%s.into() as i128 + 1) as usize] = [0];' % (first, first),
+                    'const fn in_const_fn(e: E) -> %s { e.into() }' % r,
+                    'const M0: E = E::MIN; const M1: E = E::MAX;',
+                    'const P_INTO: fn(E) -> %s = E::into;' % r,
+                    'const P_NEXT: fn(E) -> ::core::option::Option<E> = E::next; const P_PREV: fn(E) -> ::core::option::Option<E> = E::next_back;',
+                    'const P_TRY: fn(%s) -> ::core::option::Option<E> = E::try_from;' % r,
+                    'const P_FROM_STR: fn(&str) -> ::core::option::Option<E> = E::from_str;',
+                    "const P_AS_STR: fn(E) -> &'static str = E::as_str;",
+                    'const P_ITER: fn() -> EIter = E::iter; const P_NAMES: fn() -> ENames = E::names;',
+                    'fn assert_iter<T: ::core::iter::Iterator<Item = I> + ::core::iter::DoubleEndedIterator + ::core::iter::ExactSizeIterator + ::core::iter::FusedIterator, I>() {}',
+                    "fn asserts() { assert_iter::<EIter, E>(); assert_iter::<ENames, &'static str>(); }",
+                    'fn assert_traits<T: ::core::convert::TryFrom<%s, Error = ()> + ::core::str::FromStr<Err = ()> + ::core::fmt::Debug + ::core::fmt::Display + ::core::marker::Copy>() {}' % r,
+                    'fn asserts2() { assert_traits::<E>(); }',
+                    "fn assert_from<A, B: ::core::convert::From<A>>() {} fn asserts3() { assert_from::<E, %s>(); assert_from::<E, &'static str>(); }" % r,
+                ]
+                if im != 'table_inline':
+                    probes.append('const P_RANGE: fn(E, E) -> EIter = E::range;')
+                n[0] += 1
+                body = enum_src(attrs, r, vs) + probes
+                out.append(case('c19_%03d' % n[0], 'C19', 'ascriptions/%s/%s/%s' % (shape, im, sm), body, 'accept'))
+                # biting twin: one wrong ascription must be rejected (by rustc)
+                n[0] += 1
+                wrong = ['const P_WRONG: fn(E) -> ::core::result::Result<E, ()> = E::next;']
+                out.append(case('c19_%03d' % n[0], 'C19', 'ascriptions-bite/%s/%s/%s' % (shape, im, sm), enum_src(attrs, r, vs) + wrong, 'reject', 'any'))
+    return out
+
+def c15_cases(tier):
+    """privacy witnesses: helper items and struct fields are not reachable from a sibling module (reject, rustc's own
+    privacy errors), requested items are reachable where the requested visibility says so (accept twins)."""
+    out = []
+    n = [0]
+    def add(cls, inner, probe, expect, owner='any'):
+        n[0] += 1
+        body = ['pub mod def {', '    #![no_implicit_prelude]', '    use ::enum_tools::EnumTools;'] + ['    ' + l for l in inner] + ['}', 'pub mod user {', '    use super::def::*;'] + ['    ' + l for l in probe] + ['}']
+        out.append(case('c15_%03d' % n[0], 'C15', cls, body, expect, owner))
+    for shape, vs in (('gapless', ['A', 'B', 'C']), ('holes', ['A = 1', 'B = 2', 'C = 9'])):
+        e_iter = enum_src(['#[enum_tools(iter(mode = "next_and_back"), range, Debug, FromStr(mode = "table"), TryFrom, names)]'], 'u8', vs)
+        # helpers pulled in: __next, __next_back, __MIN, __MAX, __as_str, __NAME, (__ENUM / __RANGES)
+        for helper, use in [('__next', 'let _ = E::A.__next();'), ('__next_back', 'let _ = E::A.__next_back();'), ('__MIN', 'let _ = E::__MIN;'), ('__MAX', 'let _ = E::__MAX;'),
+                            ('__as_str', 'let _ = E::A.__as_str();'), ('__NAME', 'let _ = E::__NAME;')] + ([('__RANGES', 'let _ = E::__RANGES;'), ('__ENUM', 'let _ = E::__ENUM;')] if shape == 'holes' else []):
+            add('helper-private/%s/%s' % (shape, helper), e_iter, ['pub fn probe() { %s }' % use], 'reject')
+        add('field-private/%s/fwd' % shape, e_iter, ['pub fn probe() { let it = E::iter(); let _ = it.fwd; }'], 'reject')
+        add('field-private/%s/len' % shape, e_iter, ['pub fn probe() { let it = E::iter(); let _ = it.len; }'], 'reject')
+        add('field-private/%s/names-inner' % shape, e_iter, ['pub fn probe() { let it = E::names(); let _ = it.inner; }'], 'reject')
+        add('requested-public/%s/twin' % shape, e_iter, ['pub fn probe() { let _ = E::iter(); let _ = E::names(); let _ = E::range(E::A, E::C); let _: EIter = E::iter(); }'], 'accept')
+        # vis = "" on a pub enum: private; vis = "pub(crate)": visible in the crate
+        e_vis = enum_src(['#[enum_tools(next(vis = ""), next_back(vis = "pub(crate)"), into(vis = "pub"), MIN(vis = "", name = "LOWEST"), as_str(name = "label"))]'], 'u8', vs)
+        add('vis-empty-is-private/%s' % shape, e_vis, ['pub fn probe() { let _ = E::A.next(); }'], 'reject')
+        add('vis-empty-const-is-private/%s' % shape, e_vis, ['pub fn probe() { let _ = E::LOWEST; }'], 'reject')
+        add('name-replaces-default/%s/MIN' % shape, e_vis, ['pub fn probe() { let _ = E::MIN; }'], 'reject')
+        add('name-replaces-default/%s/as_str' % shape, e_vis, ['pub fn probe() { let _ = E::A.as_str(); }'], 'reject')
+        add('vis-crate-and-pub/%s/twin' % shape, e_vis, ['pub fn probe() { let _ = E::A.next_back(); let _ = E::A.into(); let _ = E::A.label(); }'], 'accept')
+        e_priv = enum_src(['#[enum_tools(next, iter(struct_name = "Walk"), names(struct_name = "Labels", vis = "pub"))]'], 'u8', vs)
+        add('struct_name/%s/twin' % shape, e_priv, ['pub fn probe() { let _: Walk = E::iter(); let _: Labels = E::names(); }'], 'accept')
+        add('struct_name-default-gone/%s' % shape, e_priv, ['pub fn probe() { let _: EIter = E::iter(); }'], 'reject')
+    return out
